@@ -16,6 +16,9 @@ PROTOCOL_VARIANTS = {
     "11d1af08823e7137": "recheck,once",
     "bd2b2476e53d05c4": "skey,once",
     "d445522eb02368ff": "recheck,skey,once",
+    # /repo after the fix commits 77487c0 + 95d35a9 (= recheck,skey) and f66be82, which only adds the
+    # updateSourcePChannelMap bookkeeping call to the existing-handler branch (no effect on the offer protocol)
+    "b31a618d7c39650b": "recheck,skey",
 }
 
 
@@ -107,6 +110,17 @@ def run(tier, replay=None):
             % (fp, "/".join(PROTOCOL_FUNCS), path))
     variant = PROTOCOL_VARIANTS[fp]
     vlib.log("[c16] manager protocol fingerprint %s -> transcription variant '%s'" % (fp, variant))
+    if not replay:
+        # the design with the switches of the fingerprinted code: as built it must leave the contract (TLC counterexample =
+        # the directed plans d-stale-forward-* / d-sourcekey-*), fully repaired it is covered by model_checks above
+        flags = set(variant.split(","))
+        for cfg, needs in (("ChannelMapping_AsBuilt.cfg", "recheck"), ("ChannelMapping_AsBuilt2.cfg", "skey")):
+            if needs in flags:
+                continue
+            r = vlib.run_tlc("ChannelMapping", cfg, workers=4, timeout=600, tag="c16-asbuilt")
+            if "Contract" not in r.violated:
+                raise vlib.Inconclusive("%s no longer shows the contract violation of the code as built:\n%s" % (cfg, r.out[-2000:]))
+            vlib.log("[c16] %s: design as built violates the contract, as expected (%d states)" % (cfg, r.distinct))
     c = dict(C)
     c["driver_env"] = {"VERIF_C16_VARIANT": variant}
     c["assumptions"] = C["assumptions"] + ["manager protocol fingerprint %s, transcription variant '%s'" % (fp, variant)]
